@@ -152,14 +152,22 @@ func corrC06(c *corrCtx) {
 	// damage classes
 	for i := 0; i < n; i++ {
 		p := randProfilePayload(r, 50+r.intn(3000))
+		if i%3 == 0 {
+			// large streams too: the damage is noticed long before the end of the chunk
+			p = randProfilePayload(r, r.pick(4095, 4096, 5000, 9000, 20000, 70000))
+		}
 		// PNG: corrupt zlib stream (header, body or checksum)
 		pd := randPngDesc(r, true, p)
 		z := append([]byte{}, pd.iccZ...)
-		switch r.intn(3) {
+		switch r.intn(5) {
 		case 0:
 			z[0] ^= 0x0f
 		case 1:
 			z[len(z)-1] ^= 0x55
+		case 2:
+			z[1] ^= 0x01 // FLG check bits
+		case 3:
+			z[2] |= 0x06 // reserved deflate block type in the first block header
 		default:
 			z = z[:len(z)/2]
 		}
